@@ -34,7 +34,7 @@ static _supla_int_t verif_action_trigger(void *srpc, TDS_ActionTrigger *at) {
 }
 static _supla_int_t verif_value_changed(void *srpc, unsigned char ch, char *value) {
   _supla_int_t r = srpc_ds_async_channel_value_changed(srpc, ch, value);
-  if (verif_call_log) sdk_out("CALL value %u %d %d %d", ch, value[0], r != 0, value[1]); /* (value[1]: the tilt of a facade blind) */
+  if (verif_call_log) { sdk_out("CALL value %u %d %d", ch, value[0], r != 0); sdk_out("VALTILT %u %d", ch, value[1]); } /* (value[1]: the tilt of a facade blind) */
   return r;
 }
 static _supla_int_t verif_set_result(void *srpc, unsigned char ch, _supla_int_t sender, char success) {
